@@ -54,6 +54,11 @@ import CtyModel.Lemmas.d05Chain
 import CtyModel.Lemmas.d05Prefix
 import CtyModel.Lemmas.d05Range
 import CtyModel.Lemmas.d05With
+import CtyModel.Lemmas.d05bBridge
+import CtyModel.Lemmas.d05bLen
+import CtyModel.Lemmas.d05bInf
+import CtyModel.Lemmas.d05bKnownChain
+import CtyModel.Lemmas.d05bNull
 namespace CtyModel
 namespace C05
 open Refine
@@ -313,6 +318,14 @@ theorem rejects_notNull_contradiction [ExactOracle] (b b' : Builder) (hd : b.isD
     (h2 : ∀ x, x ≠ .null → γB b x = false) : step b .notNull ≠ .ok b' :=
   step_notNull_rejects hd h1 h2 b'
 
+/-- Both nullness contradictions FOR EVERY ORACLE (so for the code as it is), and with the stronger conclusion: the
+call PANICS.  (Neither call compares numbers; the `[ExactOracle]` of the two theorems above is not needed.) -/
+theorem nullness_contradiction_panics [EqOracle] (b : Builder) (hd : b.isDyn = false) :
+    (γB b .null = false → ∃ w, step b .null = .panic w) ∧
+    ((∃ x, x ≠ .null ∧ Conc.kindOk b.orig.ty x = true ∧ rangeOk b.wip x = true) →
+      (∀ x, x ≠ .null → γB b x = false) → ∃ w, step b .notNull = .panic w) :=
+  ⟨D05b.step_null_panics hd, D05b.step_notNull_panics hd⟩
+
 /-! ## "the result becomes a known value only if that value admits exactly what
 the refinement admitted" -/
 
@@ -500,6 +513,18 @@ theorem safePrefix_noBoundary_shape (delims nfc : List UInt8) (advances : List N
   ⟨D05.safeKnownPrefix_noBoundary delims nfc advances hd hn,
    D05.safeKnownPrefix_noBoundary_single delims nfc advances hd hn⟩
 
+/-- What holds in the no-boundary case WITHOUT any law of the Unicode libraries: when the scanner reports the whole
+prefix as ONE grapheme cluster (a base-less run of combining marks, a lone Hangul vowel/trailing jamo sequence, …)
+nothing is recorded, and the empty prefix is a prefix of every string: continuation safety is unconditional there.
+With two or more clusters and no normalisation boundary the recorded prefix is the text before the last cluster
+(`safePrefix_noBoundary_shape`), and its safety rests on the probed laws `D05.ExtNB.lastClusterStart_stable` and `noBoundary_nonascii`
+(`safePrefix_continuation_safe_all`) — that case is searched (probed on every run), not proved. -/
+theorem safePrefix_noBoundary_single_cluster_safe (delims nfc : List UInt8) (advances : List Nat)
+    (hd : ∀ d ∈ delims, d < 128) (hn : ∀ b ∈ nfc, 128 ≤ b) (h1 : (scanLoop advances nfc.length 0 0).1 = 0)
+    (t : List UInt8) : safeKnownPrefix delims nfc (-1) advances <+: t := by
+  rw [(safePrefix_noBoundary_shape delims nfc advances hd hn).2 h1]
+  exact List.nil_prefix
+
 /-- Continuation safety for EVERY prefix and every continuation — boundary or not — for the delimiter table of the
 source, under the laws of `D05.ExtNB`: the streaming law (as before), "an ASCII byte is a normalisation boundary",
 and "without a normalisation boundary, the text before the last scanned grapheme cluster is stable" (all three
@@ -576,6 +601,23 @@ example : @refine exactPartialOracle.toEqOracle ⟨.number, .unk .unref⟩
 example : concOf ⟨.number, .n (.fin false 1 1 64)⟩ = some (.num (.fin false 1 1 64)) ∧
     (@refine exactPartialOracle.toEqOracle ⟨.number, .n (.fin false 1 1 64)⟩
       [.numLower (.known (.fin false 1 0 64)) false, .notNull]).isOk = true := by
+  decide
+
+-- `rejects_null_contradiction`, `rejects_notNull_contradiction`: a receiver that is definitely not null / definitely null
+-- (recorded range satisfiable) — the hypotheses hold and the calls panic under the code's oracle
+/-- an unknown number known to be null -/
+def sampleNull : Builder := ⟨⟨.number, .unk .unref⟩, [], .num .t none none⟩
+example : γB { sampleNum with wip := .num .f none none } .null = false ∧
+    (@step textOracle { sampleNum with wip := .num .f none none } .null).isPanic = true := by decide
+example : (∃ x, x ≠ .null ∧ Conc.kindOk sampleNull.orig.ty x = true ∧ rangeOk sampleNull.wip x = true) ∧
+    (∀ x, x ≠ .null → γB sampleNull x = false) ∧ (@step textOracle sampleNull .notNull).isPanic = true := by
+  refine ⟨⟨.num (.fin false 0 0 64), by decide, by decide, by decide⟩, fun x hx => ?_, by decide⟩
+  cases x <;> first | exact absurd rfl hx | rfl
+
+-- `known_violation_rejected`: the known number 2 violates `x ≥ 3`; the chain panics
+example : concOf ⟨.number, .n (.fin false 1 1 64)⟩ = some (.num (.fin false 1 1 64)) ∧
+    [RefineCall.notNull, .numLower (.known (.fin false 3 0 64)) true].any (fun c => !den c (.num (.fin false 1 1 64))) = true ∧
+    (@refine textOracle ⟨.number, .n (.fin false 1 1 64)⟩ [.notNull, .numLower (.known (.fin false 3 0 64)) true]).isPanic = true := by
   decide
 
 -- the streaming law is satisfiable, with a boundary present
@@ -796,6 +838,277 @@ theorem refineWith_narrows [ExactOracle] (v w : Value) (rs : List D05.Refiner)
 example : (@D05.refineWith textOracle ⟨.number, .unk .unref⟩
     [⟨[.notNull], true⟩, ⟨[.numLower (.known (.fin false 1 0 64)) true], true⟩]).isOk = true := rfl
 
+
+/-! ## slice d05b — THE BRIDGE beyond integers: a decidable side condition on the numbers of the input
+
+`D05b.textFree v cs` (resp. `D05b.textFreeB b cs` for a builder in mid-chain) collects the numbers the receiver and
+the calls carry and checks, pair by pair, that the code's `rawNumberEqual` answers as exact comparison does.  It is a
+closed Boolean computation on the input (`by decide` on a literal), the harness evaluates the same condition on the
+real code (`Equals(a, b) == (Cmp(a, b) == 0)` for every pair, `c05TextAgrees`) and diffs the code against the model
+under the total exact oracle on exactly those inputs (`rfn.runi`).  When it holds, the builder AS THE CODE RUNS IT
+(`textOracle`) satisfies the narrowing / exactness / contradiction / collapse / assertion theorems.  Integers at mixed
+precisions are an instance (`textFree_of_integers`); so are non-integers at one precision, and at several precisions
+when their shortest decimal texts separate them as their values do.  The recorded finding `builder-number-compare
+[inexact-number-equals]` is precisely an input where the condition is `false` (`textFree_fails_on_finding`).
+What is NOT proved: that the condition holds for EVERY input at one precision (it would need "math/big's shortest
+decimal text is injective at a fixed precision"); it is decided input by input. -/
+section BridgeTextFree
+open D05 D05b
+
+/-- On a text-free list of numbers the code's equality IS exact comparison. -/
+theorem code_equality_exact_on_textfree (L : List Num) (h : textFreeList L = true) (a b : Num) (ha : a ∈ L)
+    (hb : b ∈ L) : textOracle.eq a b = some (Num.cmp a b == 0) :=
+  agree_of_textFree h a b (inList_iff.mpr ha) (inList_iff.mpr hb)
+
+/-- integers and infinities, of any precisions, are text-free: slice d05's class is an instance -/
+theorem textFree_of_integers (L : List Num) (h : L.all intLike = true) : textFreeList L = true :=
+  textFreeList_of_intLike h
+
+/-- Agreement of the whole builder on a text-free input: the code's oracle and the total exact oracle give the SAME
+outcome of `v.Refine().<calls>.NewValue()` and of a chain on a builder — accepted value, panic, everything. -/
+theorem refine_code_eq_exact_textfree (v : Value) (b : Builder) (cs : List RefineCall) :
+    (textFree v cs = true → @refine textOracle v cs = @refine idealOracle v cs) ∧
+    (textFreeB b cs = true → @run textOracle b cs = @run idealOracle b cs) :=
+  ⟨refine_textFree, run_textFree⟩
+
+/-- "never widens its range" FOR THE CODE'S ORACLE on a text-free input. -/
+theorem narrows_code_textfree (b b' : Builder) (cs : List RefineCall) (htf : textFreeB b cs = true)
+    (h : @run textOracle b cs = .ok b') (x : Conc) (hx : γB b' x = true) : γB b x = true :=
+  @narrows_partial exactIdealOracle b b' cs (run_textFree htf ▸ h) x hx
+
+/-- … between the value refined and the value returned. -/
+theorem refine_narrows_code_textfree (v w : Value) (cs : List RefineCall) (htf : textFree v cs = true)
+    (h : @refine textOracle v cs = .ok w) (x : Conc) (hx : γV w x = true) : γV v x = true :=
+  @refine_narrows exactIdealOracle v w cs (refine_textFree htf ▸ h) x hx
+
+/-- `γ (step b c) = γ b ∩ ⟦c⟧` FOR THE CODE'S ORACLE on a text-free input (at every concrete value `x`, whatever its
+precision, except where a dropped bound bites). -/
+theorem exact_code_textfree (b b' : Builder) (c : RefineCall) (hd : b.isDyn = false)
+    (htf : textFreeB b [c] = true) (h : @step textOracle b c = .ok b') (x : Conc)
+    (hx : c.droppedAt x = false) : γB b' x = (γB b x && den c x) :=
+  @exact_partial exactIdealOracle b b' c hd (step_textFree htf ▸ h) x hx
+
+/-- End to end FOR THE CODE'S ORACLE on a text-free input. -/
+theorem refine_exact_code_textfree (v w : Value) (cs : List RefineCall) (hk : v.unmark.isKnown = false)
+    (hd : isDynVal v.unmark = false) (hdr : cs.all (fun c => !c.dropped) = true) (htf : textFree v cs = true)
+    (h : @refine textOracle v cs = .ok w) (x : Conc) (hx : x.fits = true) :
+    γV w x = (γV v x && cs.all (fun c => den c x)) :=
+  @refine_exact_partial exactIdealOracle v w cs hk hd hdr (refine_textFree htf ▸ h) x hx
+
+/-- `Range()` of the value the code returns admits exactly `γV v ∩ ⋂ ⟦c⟧`, on a text-free input. -/
+theorem refine_range_exact_code_textfree (v w : Value) (cs : List RefineCall) (hk : v.unmark.isKnown = false)
+    (hd : isDynVal v.unmark = false) (hdr : cs.all (fun c => !c.dropped) = true) (htf : textFree v cs = true)
+    (h : @refine textOracle v cs = .ok w) :
+    ∃ vr, range w.unmark = .ok vr ∧ vr.ty = v.ty ∧
+      ∀ x, x.fits = true → vr.admitsN x = (γV v x && cs.all (fun c => den c x)) :=
+  @refine_range_exact exactIdealOracle v w cs hk hd hdr (refine_textFree htf ▸ h)
+
+/-- "a constraint that contradicts earlier constraints is rejected" FOR THE CODE'S ORACLE on a text-free input: the
+call is not accepted — and since the text oracle always answers, that means it PANICS. -/
+theorem rejects_contradiction_code_textfree (b : Builder) (c : RefineCall) (hw : b.wf = true)
+    (hl : b.wip.lenOk = true) (hr : c.isRange = true) (hx : c.exclusiveInfinite = false)
+    (htf : textFreeB b [c] = true)
+    (h1 : ∃ x, x ≠ .null ∧ γB b x = true) (h2 : ∀ x, x ≠ .null → (γB b x && den c x) = false)
+    (b' : Builder) : @step textOracle b c ≠ .ok b' := fun h =>
+  @rejects_contradiction_partial exactIdealOracle b c hw hl hr hx h1 h2 b' (step_textFree htf ▸ h)
+
+/-- "becomes a known value only if that value admits exactly what the refinement admitted" FOR THE CODE'S ORACLE when
+the recorded bounds are text-free. -/
+theorem newValue_known_exact_code_textfree (b : Builder) (w : Value) (hw : b.wf = true)
+    (hk : b.orig.isKnown = false) (hd : b.isDyn = false) (htf : textFreeB b [] = true)
+    (h : @newValue textOracle b = .ok w) (x : Conc) : γV w x = γB b x :=
+  @newValue_known_exact exactIdealOracle b w hw hk hd (newValue_textFree htf ▸ h) x
+
+/-- "a constraint that contradicts a known value is rejected" FOR THE CODE'S ORACLE on a text-free input. -/
+theorem known_is_assertion_code_textfree (v w : Value) (cs : List RefineCall) (x : Conc)
+    (hk : v.unmark.isKnown = true) (hx : concOf v.unmark = some x) (htf : textFree v cs = true)
+    (h : @refine textOracle v cs = .ok w) :
+    w = v.unmark.withMarks v.marks ∧ cs.all (fun c => den c x) = true :=
+  @known_is_assertion exactIdealOracle v w cs x hk hx (refine_textFree htf ▸ h)
+
+/-- an unknown number already refined to `[0.5, +∞)`, the bound held at 53 bits: NOT an integer input -/
+def sampleHalf : Builder := ⟨⟨.number, .unk .unref⟩, [], .num .u (some ⟨.fin false 1 (-1) 53, true⟩) none⟩
+
+-- non-vacuity: non-integers at two precisions (0.5 at 53 bits, 2.5 at 24 bits, 0.75 at 53 bits) are text-free, the
+-- code's oracle accepts the chain; and a contradiction (x ≤ 0.25 after x ≥ 0.5) is text-free and rejected
+example : textFreeB sampleHalf [.numUpper (.known (.fin false 5 (-1) 24)) false,
+      .numLower (.known (.fin false 3 (-2) 53)) true] = true ∧
+    (@run textOracle sampleHalf [.numUpper (.known (.fin false 5 (-1) 24)) false,
+      .numLower (.known (.fin false 3 (-2) 53)) true]).isOk = true := by decide
+example : textFreeB sampleHalf [.numUpper (.known (.fin false 1 (-2) 24)) true] = true ∧
+    (@step textOracle sampleHalf (.numUpper (.known (.fin false 1 (-2) 24)) true)).isPanic = true := by decide
+example : textFree ⟨.number, .unk (.num .u (some ⟨.fin false 1 (-1) 53, true⟩) none)⟩
+    [.numUpper (.known (.fin false 5 (-1) 24)) false] = true := by decide
+
+/-- The recorded finding is exactly an input that is NOT text-free: 0.1 held at 8 bits and 0.1 held at 4 bits print
+alike and differ in value (cf. `narrows_text_counterexample`). -/
+theorem textFree_fails_on_finding :
+    textFreeB ⟨⟨.number, .unk .unref⟩, [], .num .u none (some ⟨.fin false 205 (-11) 8, false⟩)⟩
+      [.numUpper (.known (.fin false 13 (-7) 4)) false] = false := by decide
+
+-- inputs that carry NO number (strings, collections, nullable kinds) are text-free by computation, so the theorems
+-- above are about the code as it runs for every such input: e.g. an incompatible prefix after a recorded one, and a
+-- length bound below the recorded one, are contradictions the code's builder rejects (by
+-- `rejects_contradiction_code_textfree`)
+example : textFreeB ⟨⟨.string, .unk .unref⟩, [], .str .u "ab"⟩ [.stringPrefixFull "ax"] = true ∧
+    textFreeB sampleList [.lenUpper 1] = true ∧ (@step textOracle sampleList (.lenUpper 1)).isPanic = true :=
+  ⟨rfl, rfl, rfl⟩
+
+end BridgeTextFree
+
+/-! ## slice d05b — "a constraint that contradicts a known value is rejected": a known collection whose length is
+not one number
+
+`KnownIsAssertion` speaks about receivers that stand for ONE concrete value.  A known set that holds an unknown member
+next to other members stands for several lengths: `Length()` is an unknown number refined to `1 … stored members`
+(`knownLength`, the range the code computes; `γV` admits exactly those lengths).  The clause for such a receiver: a
+length constraint that excludes EVERY possible length is rejected — the seeded change
+`C05-known-set-unknown-length-bound-check-skipped` makes the builder skip that test.  For every oracle. -/
+section KnownLength
+open D05b
+
+/-- `D05b.admitsSomeLength c least most` is "some possible length satisfies ⟦c⟧", in the specification's words -/
+theorem admitsSomeLength_spec (c : RefineCall) (hc : isLenCall c = true) (least most : Nat) (hlm : least ≤ most) :
+    admitsSomeLength c least most = true ↔ ∃ l : Nat, least ≤ l ∧ l ≤ most ∧ den c (.coll l) = true :=
+  admitsSomeLength_iff c hc least most hlm
+
+/-- A length constraint (`CollectionLengthLowerBound`, `…UpperBound`, `CollectionLength`) that excludes every
+possible length `least … most` of the known receiver PANICS, whatever has been recorded so far … -/
+theorem known_length_excluded_panics [EqOracle] (b : Builder) (c : RefineCall) (least most : Nat)
+    (hd : b.isDyn = false) (hk : b.orig.isKnown = true) (hl : knownLength b.orig = .ok (least, most))
+    (hc : isLenCall c = true) (hex : ∀ l : Nat, least ≤ l → l ≤ most → den c (.coll l) = false) :
+    ∃ w, step b c = .panic w := by
+  refine step_len_excluded_panics hd hk hl hc ?_
+  cases had : admitsSomeLength c least most
+  · rfl
+  · obtain ⟨l, h1, h2, h3⟩ := (admitsSomeLength_iff c hc least most (knownLength_le hl)).mp had
+    rw [hex l h1 h2] at h3; cases h3
+
+/-- … and wherever it stands in a chain on the value, the chain is never accepted. -/
+theorem known_length_excluded_rejected [EqOracle] (v w : Value) (c : RefineCall) (least most : Nat)
+    (hd : isDynVal v.unmark = false) (hk : v.unmark.isKnown = true)
+    (hl : knownLength v.unmark = .ok (least, most)) (hc : isLenCall c = true)
+    (hex : ∀ l : Nat, least ≤ l → l ≤ most → den c (.coll l) = false) (pre post : List RefineCall) :
+    refine v (pre ++ c :: post) ≠ .ok w := by
+  intro h
+  obtain ⟨b, b', hi, hr, _⟩ := refine_ok_any h
+  obtain ⟨ho, _, _, _, _⟩ := init_ok hi
+  refine run_len_excluded_rejected (b := b) (by unfold Builder.isDyn; rw [ho]; exact hd) (by rw [ho]; exact hk)
+    (by rw [ho]; exact hl) hc ?_ pre post b' hr
+  cases had : admitsSomeLength c least most
+  · rfl
+  · obtain ⟨l, h1, h2, h3⟩ := (admitsSomeLength_iff c hc least most (by rw [← ho] at hl; exact knownLength_le hl)).mp had
+    rw [hex l h1 h2] at h3; cases h3
+
+/-- EXACTLY the excluded constraints are rejected: on the builder `Refine()` returns for a known collection (nothing
+recorded yet), a length constraint is accepted iff some possible length satisfies it, and panics iff none does. -/
+theorem known_length_rejects_exactly [EqOracle] (b : Builder) (c : RefineCall) (least most : Nat) (nl : Tri)
+    (hd : b.isDyn = false) (hk : b.orig.isKnown = true) (hl : knownLength b.orig = .ok (least, most))
+    (hw : b.wip = .coll nl 0 maxInt) (hfit : (most : Int) ≤ maxInt) (hc : isLenCall c = true) :
+    ((∃ b', step b c = .ok b') ↔ ∃ l : Nat, least ≤ l ∧ l ≤ most ∧ den c (.coll l) = true) ∧
+    ((∃ w, step b c = .panic w) ↔ ∀ l : Nat, least ≤ l → l ≤ most → den c (.coll l) = false) := by
+  obtain ⟨h1, h2⟩ := step_len_fresh_iff hd hk hl hw hfit hc
+  have hs := admitsSomeLength_iff c hc least most (knownLength_le hl)
+  refine ⟨h1.trans hs, h2.trans ⟨fun hf l a b' => ?_, fun hall => ?_⟩⟩
+  · cases hden : den c (.coll l)
+    · rfl
+    · rw [hs.mpr ⟨l, a, b', hden⟩] at hf; cases hf
+  · cases had : admitsSomeLength c least most
+    · rfl
+    · obtain ⟨l, a, b', hden⟩ := hs.mp had
+      rw [hall l a b'] at hden; cases hden
+
+/-- the known set `{unknown string, "a"}`: two stored members, one of them unknown -/
+def sampleSet : Value := ⟨.set .string, .sset [1, 2] [.unk .unref, .s "a"]⟩
+
+-- non-vacuity: its possible lengths are 1 … 2; `CollectionLengthLowerBound(3)`, `CollectionLengthUpperBound(0)`,
+-- `CollectionLength(3)` and `CollectionLength(0)` panic; `…LowerBound(2)`, `…UpperBound(1)`, `CollectionLength(1)` are
+-- accepted and return the set itself (under the code's oracle)
+example : sampleSet.unmark.isKnown = true ∧ isDynVal sampleSet.unmark = false ∧
+    knownLength sampleSet.unmark = .ok (1, 2) ∧ concOf sampleSet = none := by decide
+example : (@refine textOracle sampleSet [.lenLower 3]).isPanic = true ∧
+    (@refine textOracle sampleSet [.lenUpper 0]).isPanic = true ∧
+    (@refine textOracle sampleSet [.collectionLength 3]).isPanic = true ∧
+    (@refine textOracle sampleSet [.notNull, .collectionLength 0]).isPanic = true ∧
+    @refine textOracle sampleSet [.lenLower 2] = .ok sampleSet ∧
+    @refine textOracle sampleSet [.lenUpper 1] = .ok sampleSet ∧
+    @refine textOracle sampleSet [.collectionLength 1] = .ok sampleSet := ⟨rfl, rfl, rfl, rfl, rfl, rfl, rfl⟩
+example : ∀ l : Nat, 1 ≤ l → l ≤ 2 → den (.lenLower 3) (.coll l) = false := by
+  intro l _ h2; simp only [den, decide_eq_false_iff_not]; omega
+
+/-- `KnownIsAssertion` FOR A RECEIVER THAT STANDS FOR SEVERAL VALUES, whole chains, every oracle: if a chain on a
+known list, map or set is accepted, SOME concrete value the receiver stands for (`γV v x`: a collection of one of its
+possible lengths) satisfies EVERY call of the chain — jointly, not only call by call.  (For an exact-length receiver
+this is `known_is_assertion` restricted to collections, but without any oracle hypothesis.) -/
+theorem known_collection_is_assertion [EqOracle] (v w : Value) (cs : List RefineCall) (least most : Nat)
+    (hl : knownLength v.unmark = .ok (least, most)) (hfit : (most : Int) ≤ maxInt) (h : refine v cs = .ok w) :
+    ∃ l : Nat, least ≤ l ∧ l ≤ most ∧ γV v (.coll l) = true ∧ cs.all (fun c => den c (.coll l)) = true := by
+  obtain ⟨l, h1, h2, h3⟩ := refine_known_collection hl hfit h
+  exact ⟨l, h1, h2, by rw [← γV_unmark]; exact γV_of_knownLength hl l h1 h2, h3⟩
+
+/-- EXACTLY, for whole chains, every oracle: a chain of `NotNull()` and length constraints on a known list, map or set
+is accepted IFF some possible length of the receiver satisfies every call of it — and then the receiver itself comes
+back.  (Any other call on such a receiver panics: `Null()` contradicts a known non-null value, number and prefix
+calls do not apply to a collection.) -/
+theorem known_collection_chain_iff [EqOracle] (v : Value) (cs : List RefineCall) (least most : Nat)
+    (hl : knownLength v.unmark = .ok (least, most)) (hfit : (most : Int) ≤ maxInt)
+    (hm : v.unmark.v.isMarked = false) (hc : cs.all isLenOrNotNull = true) :
+    ((∃ w, refine v cs = .ok w) ↔ ∃ l : Nat, least ≤ l ∧ l ≤ most ∧ cs.all (fun c => den c (.coll l)) = true) ∧
+    ∀ w, refine v cs = .ok w → w = v.unmark.withMarks v.marks := by
+  refine ⟨⟨fun ⟨w, h⟩ => refine_known_collection hl hfit h, fun ⟨l, h1, h2, h3⟩ =>
+    ⟨_, refine_known_collection_accepts hl hfit hm hc h1 h2 h3⟩⟩, fun w h => ?_⟩
+  obtain ⟨l, h1, h2, h3⟩ := refine_known_collection hl hfit h
+  rw [refine_known_collection_accepts hl hfit hm hc h1 h2 h3] at h
+  exact (Res.ok.inj h).symm
+
+-- jointly, not call by call: on {unknown, "a"} "length ≥ 2" and "length ≤ 1" are each accepted, together they panic
+example : (@refine textOracle sampleSet [.lenLower 2]).isOk = true ∧ (@refine textOracle sampleSet [.lenUpper 1]).isOk = true ∧
+    (@refine textOracle sampleSet [.lenLower 2, .lenUpper 1]).isPanic = true ∧
+    (@refine textOracle sampleSet [.lenUpper 1, .notNull, .collectionLength 2]).isPanic = true := ⟨rfl, rfl, rfl, rfl⟩
+
+end KnownLength
+
+/-! ## slice d05b — infinite bounds: only the NEAR-side singleton is "no bound"
+
+`NumberRangeLowerBound` skips recording only for the singleton `cty.NegativeInfinity`, `NumberRangeUpperBound` only
+for `cty.PositiveInfinity`.  A lower bound of +∞ / an upper bound of −∞ (singleton or computed) is recorded and
+excludes every finite number — the seeded change `C05-infinite-bound-of-either-sign-treated-as-no-bound` drops it.
+For every oracle, so for the code's own number equality; every receiver but `cty.DynamicVal`, every earlier record. -/
+section InfiniteBounds
+open D05b
+
+/-- After an accepted `NumberRangeLowerBound(+∞, incl)` the record carries +∞ as its lower bound and the builder
+admits no number other than +∞ itself: every finite number (and −∞) is excluded. -/
+theorem far_lower_infinity_recorded [EqOracle] (b b' : Builder) (a : NumArg) (incl : Bool) (hd : b.isDyn = false)
+    (ha : a = .posInf ∨ a = .known (.inf false)) (h : step b (.numLower a incl) = .ok b') :
+    (∃ i, lowerOf b'.wip = some ⟨.inf false, i⟩) ∧ ∀ x, x ≠ .inf false → γB b' (.num x) = false := by
+  have ha' : a.num? = some (.inf false) := by rcases ha with rfl | rfl <;> rfl
+  exact ⟨far_lower_recorded hd ha' h, far_lower_excludes hd ha' h⟩
+
+/-- The mirror image: after an accepted `NumberRangeUpperBound(−∞, incl)`. -/
+theorem far_upper_infinity_recorded [EqOracle] (b b' : Builder) (a : NumArg) (incl : Bool) (hd : b.isDyn = false)
+    (ha : a = .negInf ∨ a = .known (.inf true)) (h : step b (.numUpper a incl) = .ok b') :
+    (∃ i, upperOf b'.wip = some ⟨.inf true, i⟩) ∧ ∀ x, x ≠ .inf true → γB b' (.num x) = false := by
+  have ha' : a.num? = some (.inf true) := by rcases ha with rfl | rfl <;> rfl
+  exact ⟨far_upper_recorded hd ha' h, far_upper_excludes hd ha' h⟩
+
+/-- Only the near-side singleton is "no bound": `NumberRangeLowerBound(cty.NegativeInfinity, _)` and
+`NumberRangeUpperBound(cty.PositiveInfinity, _)`, when they return, leave the record exactly as it was. -/
+theorem near_infinity_is_no_bound [EqOracle] (b b' : Builder) (incl : Bool) :
+    (step b (.numLower .negInf incl) = .ok b' → b'.wip = b.wip) ∧
+    (step b (.numUpper .posInf incl) = .ok b' → b'.wip = b.wip) :=
+  ⟨near_lower_not_recorded, near_upper_not_recorded⟩
+
+-- non-vacuity, under the code's oracle: on the unknown number already refined to [1, +∞) both far-side calls are
+-- accepted and recorded; a later finite bound on the other side then contradicts and panics
+example : @step textOracle sampleNum (.numLower .posInf true) =
+      .ok { sampleNum with wip := .num .u (some ⟨.inf false, true⟩) none } ∧
+    (@run textOracle sampleNum [.numLower .posInf true, .numUpper (.known (.fin false 5 0 64)) true]).isPanic = true ∧
+    (@step textOracle ⟨⟨.number, .unk .unref⟩, [], .num .u none none⟩ (.numUpper (.known (.inf true)) true)).isOk = true :=
+  ⟨rfl, rfl, rfl⟩
+
+end InfiniteBounds
+
 /-! ### the delimiter table is the one in the source (regenerated on every check) -/
 
 /-- The model's delimiter table is, entry for entry and in order, the rune list of
@@ -1015,6 +1328,134 @@ example : (@Generated.RefineFns.run textOracle ⟨id, id⟩ sampleList [.null, .
   decide
 
 end RegeneratedBridge
+
+/-! #### slice d05b: the text-free bridge, known-collection lengths and infinite bounds, about the translated source -/
+section RegeneratedD05b
+open D05 D05b
+
+/-- end-to-end exactness, about the translated source under THE CODE'S number equality, on a text-free input -/
+theorem refine_exact_code_textfree_generated (v w : Value) (cs : List RefineCall) (hm : Modelled v)
+    (hk : v.unmark.isKnown = false) (hd : isDynVal v.unmark = false)
+    (hdr : (cs.map ext).all (fun c => !c.dropped) = true) (htf : textFree v (cs.map ext) = true)
+    (h : @Generated.RefineFns.refine textOracle _ v cs = .ok w) (x : Conc) (hx : x.fits = true) :
+    γV w x = (γV v x && (cs.map ext).all (fun c => den c x)) :=
+  refine_exact_code_textfree v w (cs.map ext) hk hd hdr htf (ok_of_generated (@refine_eq textOracle _ v cs hm) h) x hx
+
+/-- "never widens its range", about the translated source under THE CODE'S number equality, on a text-free input -/
+theorem narrows_code_textfree_generated (b b' : Builder) (cs : List RefineCall)
+    (htf : textFreeB b (cs.map ext) = true) (h : @Generated.RefineFns.run textOracle _ b cs = .ok b') (x : Conc)
+    (hx : γB b' x = true) : γB b x = true :=
+  narrows_code_textfree b b' (cs.map ext) htf (ok_of_generated (@run_eq textOracle _ cs b) h) x hx
+
+/-- contradictions are rejected by the translated source under THE CODE'S number equality, on a text-free input -/
+theorem rejects_contradiction_code_textfree_generated (b : Builder) (c : RefineCall) (hw : b.wf = true)
+    (hl : b.wip.lenOk = true) (hr : (ext c).isRange = true) (hx : (ext c).exclusiveInfinite = false)
+    (htf : textFreeB b [ext c] = true)
+    (h1 : ∃ x, x ≠ .null ∧ γB b x = true) (h2 : ∀ x, x ≠ .null → (γB b x && den (ext c) x) = false)
+    (b' : Builder) : @Generated.RefineFns.step textOracle _ b c ≠ .ok b' := fun h =>
+  rejects_contradiction_code_textfree b (ext c) hw hl hr hx htf h1 h2 b'
+    (ok_of_generated (@step_eq textOracle _ b c) h)
+
+/-- `ext` leaves every call that is not a string prefix alone -/
+theorem ext_of_lenCall (c : RefineCall) (hc : isLenCall c = true) : ext c = c := by
+  cases c <;> simp [isLenCall] at hc <;> rfl
+
+/-- a length constraint that excludes every possible length of the known receiver: the translated
+`CollectionLengthLowerBound` / `…UpperBound` / `CollectionLength` PANIC (they compare with `b.orig.Length()` and test
+that the ANSWER is known, not that the length is) -/
+theorem known_length_excluded_panics_generated [EqOracle] (b : Builder) (c : RefineCall) (least most : Nat)
+    (hd : b.isDyn = false) (hk : b.orig.isKnown = true) (hl : knownLength b.orig = .ok (least, most))
+    (hc : isLenCall c = true) (hex : ∀ l : Nat, least ≤ l → l ≤ most → den c (.coll l) = false) :
+    (Generated.RefineFns.step b c).isPanic = true := by
+  obtain ⟨w, hw⟩ := known_length_excluded_panics b c least most hd hk hl hc hex
+  have h := step_eq b c
+  rw [ext_of_lenCall c hc] at h
+  exact panic_of_generated h hw
+
+/-- … and a constraint that admits some possible length is accepted by the translated source, on the builder
+`Refine()` returns -/
+theorem known_length_admitted_accepted_generated [EqOracle] (b : Builder) (c : RefineCall) (least most : Nat)
+    (nl : Tri) (hd : b.isDyn = false) (hk : b.orig.isKnown = true)
+    (hl : knownLength b.orig = .ok (least, most)) (hw : b.wip = .coll nl 0 maxInt) (hfit : (most : Int) ≤ maxInt)
+    (hc : isLenCall c = true) (l : Nat) (h1 : least ≤ l) (h2 : l ≤ most) (h3 : den c (.coll l) = true) :
+    (Generated.RefineFns.step b c).isOk = true := by
+  obtain ⟨b', hb'⟩ := ((known_length_rejects_exactly b c least most nl hd hk hl hw hfit hc).1).mpr ⟨l, h1, h2, h3⟩
+  have h := step_eq b c
+  rw [ext_of_lenCall c hc, hb', er_ok] at h
+  rw [er_eq_ok.mp h]; rfl
+
+/-- an accepted chain of the translated source on a known collection holds jointly of some possible length -/
+theorem known_collection_is_assertion_generated [EqOracle] (v w : Value) (cs : List RefineCall) (least most : Nat)
+    (hm : Modelled v) (hl : knownLength v.unmark = .ok (least, most)) (hfit : (most : Int) ≤ maxInt)
+    (h : Generated.RefineFns.refine v cs = .ok w) :
+    ∃ l : Nat, least ≤ l ∧ l ≤ most ∧ γV v (.coll l) = true ∧ (cs.map ext).all (fun c => den c (.coll l)) = true :=
+  known_collection_is_assertion v w (cs.map ext) least most hl hfit (ok_of_generated (refine_eq v cs hm) h)
+
+/-- both nullness contradictions make the translated `Null()` / `NotNull()` PANIC, for every oracle -/
+theorem nullness_contradiction_panics_generated [EqOracle] (b : Builder) (hd : b.isDyn = false) :
+    (γB b .null = false → (Generated.RefineFns.step b .null).isPanic = true) ∧
+    ((∃ x, x ≠ .null ∧ Conc.kindOk b.orig.ty x = true ∧ rangeOk b.wip x = true) →
+      (∀ x, x ≠ .null → γB b x = false) → (Generated.RefineFns.step b .notNull).isPanic = true) := by
+  refine ⟨fun h => ?_, fun h1 h2 => ?_⟩
+  · obtain ⟨w, hw⟩ := (nullness_contradiction_panics b hd).1 h
+    exact panic_of_generated (step_eq b .null) hw
+  · obtain ⟨w, hw⟩ := (nullness_contradiction_panics b hd).2 h1 h2
+    exact panic_of_generated (step_eq b .notNull) hw
+
+/-- `ext` leaves a chain of `NotNull()` and length constraints alone -/
+theorem map_ext_lenOrNotNull (cs : List RefineCall) (hc : cs.all isLenOrNotNull = true) : cs.map ext = cs := by
+  induction cs with
+  | nil => rfl
+  | cons c cs ih =>
+    simp only [List.all_cons, Bool.and_eq_true] at hc
+    simp only [List.map, ih hc.2]
+    cases c <;> simp [isLenOrNotNull, isLenCall] at hc <;> rfl
+
+/-- EXACTLY, for whole chains of the translated source on a known collection: accepted iff some possible length
+satisfies every call -/
+theorem known_collection_chain_iff_generated [EqOracle] (v : Value) (cs : List RefineCall) (least most : Nat)
+    (hmod : Modelled v) (hl : knownLength v.unmark = .ok (least, most)) (hfit : (most : Int) ≤ maxInt)
+    (hm : v.unmark.v.isMarked = false) (hc : cs.all isLenOrNotNull = true) :
+    (∃ w, Generated.RefineFns.refine v cs = .ok w) ↔
+      ∃ l : Nat, least ≤ l ∧ l ≤ most ∧ cs.all (fun c => den c (.coll l)) = true := by
+  have he := refine_eq v cs hmod
+  rw [map_ext_lenOrNotNull cs hc] at he
+  rw [← (known_collection_chain_iff v cs least most hl hfit hm hc).1]
+  constructor
+  · intro ⟨w, h⟩; exact ⟨w, ok_of_generated he h⟩
+  · intro ⟨w, h⟩
+    rw [h, er_ok] at he
+    exact ⟨w, er_eq_ok.mp he⟩
+
+/-- a lower bound of +∞ is recorded by the translated `NumberRangeLowerBound` and excludes every finite number -/
+theorem far_lower_infinity_recorded_generated [EqOracle] (b b' : Builder) (a : NumArg) (incl : Bool)
+    (hd : b.isDyn = false) (ha : a = .posInf ∨ a = .known (.inf false))
+    (h : Generated.RefineFns.step b (.numLower a incl) = .ok b') :
+    (∃ i, lowerOf b'.wip = some ⟨.inf false, i⟩) ∧ ∀ x, x ≠ .inf false → γB b' (.num x) = false :=
+  far_lower_infinity_recorded b b' a incl hd ha (ok_of_generated (step_eq b (.numLower a incl)) h)
+
+/-- an upper bound of −∞ is recorded by the translated `NumberRangeUpperBound` and excludes every finite number -/
+theorem far_upper_infinity_recorded_generated [EqOracle] (b b' : Builder) (a : NumArg) (incl : Bool)
+    (hd : b.isDyn = false) (ha : a = .negInf ∨ a = .known (.inf true))
+    (h : Generated.RefineFns.step b (.numUpper a incl) = .ok b') :
+    (∃ i, upperOf b'.wip = some ⟨.inf true, i⟩) ∧ ∀ x, x ≠ .inf true → γB b' (.num x) = false :=
+  far_upper_infinity_recorded b b' a incl hd ha (ok_of_generated (step_eq b (.numUpper a incl)) h)
+
+/-- only the near-side singleton is "no bound" in the translated source -/
+theorem near_infinity_is_no_bound_generated [EqOracle] (b b' : Builder) (incl : Bool) :
+    (Generated.RefineFns.step b (.numLower .negInf incl) = .ok b' → b'.wip = b.wip) ∧
+    (Generated.RefineFns.step b (.numUpper .posInf incl) = .ok b' → b'.wip = b.wip) :=
+  ⟨fun h => (near_infinity_is_no_bound b b' incl).1 (ok_of_generated (step_eq b (.numLower .negInf incl)) h),
+   fun h => (near_infinity_is_no_bound b b' incl).2 (ok_of_generated (step_eq b (.numUpper .posInf incl)) h)⟩
+
+-- the translated source run under the code's oracle: the known set {unknown, "a"} refuses length ≥ 3 and accepts
+-- length ≥ 2; the unknown number records a lower bound of +∞
+example : (@Generated.RefineFns.refine textOracle ⟨id, id⟩ sampleSet [.lenLower 3]).isPanic = true ∧
+    (@Generated.RefineFns.refine textOracle ⟨id, id⟩ sampleSet [.lenLower 2]).isOk = true ∧
+    @Generated.RefineFns.step textOracle ⟨id, id⟩ sampleNum (.numLower .posInf true) =
+      .ok { sampleNum with wip := .num .u (some ⟨.inf false, true⟩) none } := ⟨by decide, by decide, by rfl⟩
+
+end RegeneratedD05b
 
 end Regenerated
 
